@@ -78,6 +78,8 @@ func vPartialServer(aclsOn bool) (*Server, *vSrvBackend) {
 		shutdownCh: make(chan struct{})}
 	be := &vSrvBackend{tokens: map[string]*structs.ACLToken{}, policies: map[string]*structs.ACLPolicy{}}
 	if aclsOn {
+		// every server holds the anonymous token (created when ACLs are bootstrapped)
+		be.tokens[anonymousSecretID] = &structs.ACLToken{AccessorID: anonymousAccessorID, SecretID: anonymousSecretID}
 		vInstallPolicyParserStub()
 		cfg.ACLsEnabled = true
 		cfg.ACLResolverSettings.ACLsEnabled = true
